@@ -194,103 +194,315 @@ def _r1(run, prog, eff, base, concrete):
 
 
 def _r2(run, prog, eff, concrete):
+    """Pixel values and spectral settings, decided on the flattened + propagated bodies (helpers expanded, single-definition
+    locals replaced by their definitions) so that the shape of the code does not matter; a form that is not recognised is
+    reported as undecided, a recognised wrong form as a violation."""
+    from ..inline import prep, class_lookup
     run.describe('C16-R2', 'calibrate: integral over a pixel / width of the same pixel after the range check; spectral settings formulas')
     spec = [c for c in concrete if c.name == 'Spectrometer']
     if not spec:
         raise AnalysisError('anchored class vanished: Spectrometer')
     ci = spec[0]
     K = '%s|Spectrometer|' % ci.mod.name
-    cal = ci.methods.get('calibrate')
-    if cal is None:
+    cal0 = ci.methods.get('calibrate')
+    if cal0 is None:
         raise AnalysisError('anchored method vanished: Spectrometer.calibrate')
+    cal = prep(cal0, class_lookup(prog, ci))
     sp = cal.args.args[1].arg
-    stores = [st for st in ast.walk(cal) if isinstance(st, ast.Assign) and isinstance(st.targets[0], ast.Subscript)]
-    run.subject('C16-R2')
-    good = False
-    for st in stores:
-        v = st.value
-        idx = norm(st.targets[0].slice)
-        if isinstance(v, ast.BinOp) and isinstance(v.op, ast.Div) and isinstance(v.left, ast.Call) and norm(v.left.func) == sp + '.integrate' \
-                and len(v.left.args) == 2:
-            lo, hi = norm(v.left.args[0]), norm(v.left.args[1])
-            w = v.right
-            if isinstance(w, ast.BinOp) and isinstance(w.op, ast.Sub) and norm(w.left) == hi and norm(w.right) == lo \
-                    and lo.endswith('[%s]' % idx) and hi.endswith('[%s + 1]' % idx) and lo.split('[')[0] == hi.split('[')[0]:
-                good = True
-                edges_name = lo.split('[')[0]
-                # loop covers all pixels: range(size - 1)
-                lp = [l for l in ast.walk(cal) if isinstance(l, ast.For) and any(x is st for x in ast.walk(l))][-1]
-                if norm(lp.iter) != 'range(%s.size - 1)' % edges_name:
-                    run.fail('C16-R2', K + 'calibrate|pixel-loop', ci.mod.relpath, lp.lineno,
-                             'calibrate iterates %s instead of every pixel range(%s.size - 1)' % (norm(lp.iter), edges_name))
-                    good = None
-    if good:
-        run.ok('C16-R2', 'calibrate pixel value', 'integrate(e[i], e[i+1]) / (e[i+1] - e[i])')
-    elif good is False:
-        run.fail('C16-R2', K + 'calibrate|pixel-value', ci.mod.relpath, cal.lineno,
-                 'calibrate does not divide the integral over [e_i, e_(i+1)] by the width of that same pixel: %s' % [norm(s.value)[:80] for s in stores])
+    _calibrate_pixels(run, ci, cal, sp, K)
     # range check precedes the loop and raises
     run.subject('C16-R2')
-    raises = [r for r in ast.walk(cal) if isinstance(r, ast.Raise)]
     okr = False
-    for r in raises:
-        f = facts(guards_of(cal, r) or [])
-        txt = ' '.join(a[0] for a in f)
+    loops = [l for l in cal.body if isinstance(l, ast.For)]
+    for r in [r for r in ast.walk(cal) if isinstance(r, ast.Raise)]:
         t = _enclosing_if(cal, r)
-        if t is not None:
-            tt = norm(t.test)
-            if ('%s.min_wavelength > self.min_wavelength' % sp in tt and '%s.max_wavelength < self.max_wavelength' % sp in tt and ' or ' in tt):
-                loops = [l for l in cal.body if isinstance(l, ast.For)]
-                if loops and t.lineno < loops[0].lineno:
-                    okr = True
+        if t is None or not loops or t.lineno >= loops[0].lineno:
+            continue
+        tests = t.test.values if isinstance(t.test, ast.BoolOp) and isinstance(t.test.op, ast.Or) else [t.test]
+        tx = {norm(x) for x in tests}
+        lo_ok = any(x in tx for x in ('%s.min_wavelength > self.min_wavelength' % sp, 'self.min_wavelength < %s.min_wavelength' % sp,
+                                      '%s.min_wavelength > self._min_wavelength' % sp))
+        hi_ok = any(x in tx for x in ('%s.max_wavelength < self.max_wavelength' % sp, 'self.max_wavelength > %s.max_wavelength' % sp,
+                                      '%s.max_wavelength < self._max_wavelength' % sp))
+        if lo_ok and hi_ok:
+            okr = True
+    # two separate guards are the same check
+    if not okr:
+        seen = set()
+        for r in [r for r in ast.walk(cal) if isinstance(r, ast.Raise)]:
+            t = _enclosing_if(cal, r)
+            if t is not None and loops and t.lineno < loops[0].lineno:
+                seen.add(norm(t.test))
+        if any('%s.min_wavelength > self.min_wavelength' % sp in x for x in seen) and any('%s.max_wavelength < self.max_wavelength' % sp in x for x in seen):
+            okr = True
     if okr:
         run.ok('C16-R2', 'calibrate range check', 'spectrum must cover [min_wavelength, max_wavelength]')
     else:
-        run.fail('C16-R2', K + 'calibrate|range-check', ci.mod.relpath, cal.lineno,
+        run.fail('C16-R2', K + 'calibrate|range-check', ci.mod.relpath, cal0.lineno,
                  'calibrate does not reject spectra narrower than the instrument range before integrating')
-    # spectral settings of the spectrometer
-    us = ci.methods.get('_update_spectral_settings')
-    tx = {norm(st.targets[0]): norm(st.value) for st in us.body if isinstance(st, ast.Assign)}
-    want = {'self._min_wavelength': 'min((wl2pix[0] for wl2pix in self._wavelength_to_pixel))',
-            'self._max_wavelength': 'max((wl2pix[-1] for wl2pix in self._wavelength_to_pixel))',
-            'step': 'min((np.diff(wl2pix).min() for wl2pix in self._wavelength_to_pixel)) / self._min_bins_per_pixel',
-            'self._spectral_bins': 'int(np.ceil((self._max_wavelength - self._min_wavelength) / step))'}
-    for k, w in want.items():
-        run.subject('C16-R2')
-        got = tx.get(k)
-        if got is not None and _same_modulo_names(got, w):
-            run.ok('C16-R2', 'Spectrometer ' + k, got)
-        else:
-            run.fail('C16-R2', K + '_update_spectral_settings|' + k, ci.mod.relpath, us.lineno,
-                     'Spectrometer._update_spectral_settings: %s = %s; documented: %s' % (k, got, w))
+    _spectrometer_settings(run, prog, ci, K)
     poly = [c for c in concrete if c.name == 'Polychromator']
     if poly:
-        pc = poly[0]
-        us = pc.methods.get('_update_spectral_settings')
-        body = norm(us.body)
-        checks = {'step': 'step = min(step, poly_filter.window / self._min_bins_per_window)',
-                  'min': 'min_wavelength = min(min_wavelength, poly_filter.min_wavelength)',
-                  'max': 'max_wavelength = max(max_wavelength, poly_filter.max_wavelength)',
-                  'bins': 'self._spectral_bins = int(np.ceil((max_wavelength - min_wavelength) / step))',
-                  'store-min': 'self._min_wavelength = min_wavelength', 'store-max': 'self._max_wavelength = max_wavelength',
-                  'init': 'min_wavelength = np.inf; max_wavelength = 0; step = np.inf'}
-        for k, w in checks.items():
-            run.subject('C16-R2')
-            if w in body:
-                run.ok('C16-R2', 'Polychromator ' + k, w, sample=False)
+        _polychromator_settings(run, prog, poly[0])
+    run.floor('C16-R2', 12)
+
+
+def _calibrate_pixels(run, ci, cal, sp, K):
+    run.subject('C16-R2')
+    stores = [st for st in ast.walk(cal) if isinstance(st, ast.Assign) and isinstance(st.targets[0], ast.Subscript)]
+    cands = []
+    for st in stores:
+        v = st.value
+        if isinstance(v, ast.BinOp) and isinstance(v.op, ast.Div) and isinstance(v.left, ast.Call) and norm(v.left.func) == sp + '.integrate' \
+                and len(v.left.args) == 2:
+            cands.append(st)
+    if not cands:
+        run.undecided('C16-R2', 'calibrate pixel value', 'no store of %s.integrate(a, b) / width recognised: %s' % (sp, [norm(s.value)[:60] for s in stores]))
+        return
+    for st in cands:
+        v = st.value
+        idx = norm(st.targets[0].slice)
+        lo, hi = v.left.args
+        w = v.right
+        lp = [l for l in ast.walk(cal) if isinstance(l, ast.For) and any(x is st for x in ast.walk(l))]
+        inner = lp[-1] if lp else None
+        if not (isinstance(w, ast.BinOp) and isinstance(w.op, ast.Sub)):
+            run.undecided('C16-R2', 'calibrate pixel value', 'width %s not recognised' % norm(w))
+            continue
+        if (norm(w.left), norm(w.right)) != (norm(hi), norm(lo)):
+            run.fail('C16-R2', K + 'calibrate|pixel-value', ci.mod.relpath, st.lineno,
+                     'calibrate divides the integral over [%s, %s] by %s, which is not the width of that same pixel' % (norm(lo), norm(hi), norm(w)))
+            continue
+        # the integration limits are consecutive edges e[i], e[i+1] of the array being iterated
+        carried = [x for x in (lo, hi) if isinstance(x, ast.Name)]
+        if carried:
+            nm = carried[0].id
+            defs = [d for d in ast.walk(cal) if isinstance(d, ast.Assign) and any(isinstance(t, ast.Name) and t.id == nm for t in d.targets)]
+            outer = lp[0] if len(lp) > 1 else None
+            outside = [d for d in defs if outer is not None and not any(x is d for x in ast.walk(outer))]
+            if outside and any(any(x is d for x in ast.walk(inner)) for d in defs):
+                run.fail('C16-R2', K + 'calibrate|pixel-value', ci.mod.relpath, st.lineno,
+                         "calibrate integrates from '%s', a value carried from one pixel to the next that is initialised once outside the loop over "
+                         "the accommodated spectra (line %d): the first pixel of every spectrum but the first starts at the previous spectrum's "
+                         "last edge, so value * width is not the integral over that pixel" % (nm, outside[0].lineno))
             else:
-                run.fail('C16-R2', '%s|Polychromator|_update_spectral_settings|%s' % (pc.mod.name, k), pc.mod.relpath, us.lineno,
-                         'Polychromator._update_spectral_settings lacks "%s"' % w)
-        # one pipeline (class and kwargs) per filter, in filter order
-        for bname, want in (('_update_pipeline_classes', 'for poly_filter in self._filters'), ('_update_pipeline_kwargs', "'filter': poly_filter")):
+                run.undecided('C16-R2', 'calibrate pixel value', "integration limit '%s' is a loop-carried local" % nm)
+            continue
+        lo_t, hi_t = norm(lo), norm(hi)
+        if lo_t.endswith('[%s]' % idx) and hi_t.endswith('[%s + 1]' % idx) and lo_t.split('[')[0] == hi_t.split('[')[0]:
+            edges_name = lo_t.split('[')[0]
+            it = norm(inner.iter) if inner is not None else ''
+            if it in ('range(%s.size - 1)' % edges_name, 'range(len(%s) - 1)' % edges_name, 'range(%s.shape[0] - 1)' % edges_name):
+                run.ok('C16-R2', 'calibrate pixel value', 'integrate(e[i], e[i+1]) / (e[i+1] - e[i]) for every pixel')
+            elif inner is not None and isinstance(inner.iter, ast.Call) and dotted(inner.iter.func) == 'range':
+                run.fail('C16-R2', K + 'calibrate|pixel-loop', ci.mod.relpath, inner.lineno,
+                         'calibrate iterates %s instead of every pixel range(%s.size - 1)' % (it, edges_name))
+            else:
+                run.undecided('C16-R2', 'calibrate pixel loop', 'loop %s not recognised' % it)
+        elif lo_t.split('[')[0] == hi_t.split('[')[0] and '[' in lo_t:
+            run.fail('C16-R2', K + 'calibrate|pixel-value', ci.mod.relpath, st.lineno,
+                     'calibrate stores pixel %s as the integral over [%s, %s]: not the edges of that pixel' % (idx, lo_t, hi_t))
+        else:
+            run.undecided('C16-R2', 'calibrate pixel value', 'integration limits %s, %s not recognised' % (lo_t, hi_t))
+
+
+def _gen_over(e, fname):
+    """e is fname(<elt> for <v> in <iterable>) (generator or list comprehension): (elt, var, iterable) else None"""
+    if isinstance(e, ast.Call) and dotted(e.func) in (fname, 'np.' + fname) and len(e.args) == 1 \
+            and isinstance(e.args[0], (ast.GeneratorExp, ast.ListComp)) and len(e.args[0].generators) == 1 \
+            and isinstance(e.args[0].generators[0].target, ast.Name) and not e.args[0].generators[0].ifs:
+        g = e.args[0].generators[0]
+        return e.args[0].elt, g.target.id, norm(g.iter)
+    return None
+
+
+def _all_widths_min(e, v):
+    """True: e is the smallest width of all pixels of the edge array v; False: e reads only fixed edges; None: not recognised."""
+    t = norm(e).replace(' ', '')
+    whole = ('np.diff(%s).min()' % v, 'min(np.diff(%s))' % v, 'np.min(np.diff(%s))' % v, 'np.amin(np.diff(%s))' % v,
+             '(%s[1:]-%s[:-1]).min()' % (v, v), 'np.min(%s[1:]-%s[:-1])' % (v, v), 'min(%s[1:]-%s[:-1])' % (v, v))
+    if t in whole:
+        return True
+    subs = [x for x in ast.walk(e) if isinstance(x, ast.Subscript) and isinstance(x.value, ast.Name) and x.value.id == v]
+    uses = [x for x in ast.walk(e) if isinstance(x, ast.Name) and x.id == v]
+    if subs and len(subs) == len(uses) and all(not isinstance(x.slice, ast.Slice) and const_index(x.slice) for x in subs):
+        return False
+    return None
+
+
+def const_index(sl):
+    from ..program import const_fold
+    return const_fold(sl) is not None
+
+
+def _spectrometer_settings(run, prog, ci, K):
+    from ..inline import prep, class_lookup
+    us0 = ci.methods.get('_update_spectral_settings')
+    if us0 is None:
+        raise AnalysisError('anchored method vanished: Spectrometer._update_spectral_settings')
+    us = prep(us0, class_lookup(prog, ci))
+    tx = {}
+    for st in ast.walk(us):
+        if isinstance(st, ast.Assign) and len(st.targets) == 1:
+            tx[norm(st.targets[0])] = st.value
+    W = 'self._wavelength_to_pixel'
+    for fld, fname, want_idx, other in (('self._min_wavelength', 'min', '0', 'max'), ('self._max_wavelength', 'max', '-1', 'min')):
+        run.subject('C16-R2')
+        e = tx.get(fld)
+        g = _gen_over(e, fname) if e is not None else None
+        gbad = _gen_over(e, other) if e is not None else None
+        if g and g[2] in (W, 'self.wavelength_to_pixel') and norm(g[0]) == '%s[%s]' % (g[1], want_idx):
+            run.ok('C16-R2', 'Spectrometer ' + fld, norm(e))
+        elif (g or gbad) and (g or gbad)[2] in (W, 'self.wavelength_to_pixel'):
+            run.fail('C16-R2', K + '_update_spectral_settings|' + fld, ci.mod.relpath, us0.lineno,
+                     'Spectrometer._update_spectral_settings: %s = %s; the instrument range is %s of the %s edge of every accommodated spectrum'
+                     % (fld, norm(e), fname, 'first' if want_idx == '0' else 'last'))
+        else:
+            run.undecided('C16-R2', 'Spectrometer ' + fld, 'form not recognised: %s' % (norm(e) if e is not None else None))
+    # bins = int(ceil((max - min) / step)),  step = min over spectra of the narrowest pixel / min_bins_per_pixel
+    run.subject('C16-R2')
+    e = tx.get('self._spectral_bins')
+    step = None
+    if isinstance(e, ast.Call) and dotted(e.func) == 'int' and len(e.args) == 1 and isinstance(e.args[0], ast.Call) \
+            and dotted(e.args[0].func) in ('np.ceil', 'ceil', 'math.ceil') and isinstance(e.args[0].args[0], ast.BinOp) \
+            and isinstance(e.args[0].args[0].op, ast.Div):
+        q = e.args[0].args[0]
+        if norm(q.left) in ('self._max_wavelength - self._min_wavelength', 'self.max_wavelength - self.min_wavelength'):
+            step = q.right
+            run.ok('C16-R2', 'Spectrometer bins', 'int(ceil((max - min) / step))')
+        else:
+            run.fail('C16-R2', K + '_update_spectral_settings|bins-range', ci.mod.relpath, us0.lineno,
+                     'Spectrometer._update_spectral_settings: bins computed from %s, expected the range max - min' % norm(q.left))
+    elif isinstance(e, ast.Call) and dotted(e.func) in ('int', 'round') and e.args and not any(
+            isinstance(x, ast.Call) and dotted(x.func) in ('np.ceil', 'ceil', 'math.ceil') for x in ast.walk(e)):
+        run.fail('C16-R2', K + '_update_spectral_settings|bins-rounding', ci.mod.relpath, us0.lineno,
+                 'Spectrometer._update_spectral_settings: %s rounds the number of bins down, so a bin can be wider than the narrowest pixel / '
+                 'min_bins_per_pixel' % norm(e))
+    else:
+        run.undecided('C16-R2', 'Spectrometer bins', 'form not recognised: %s' % (norm(e) if e is not None else None))
+    run.subject('C16-R2')
+    if step is None:
+        run.undecided('C16-R2', 'Spectrometer step', 'bin width expression not found')
+        return
+    if not (isinstance(step, ast.BinOp) and isinstance(step.op, ast.Div) and norm(step.right) in ('self._min_bins_per_pixel', 'self.min_bins_per_pixel')):
+        if not any(isinstance(x, ast.Attribute) and x.attr in ('_min_bins_per_pixel', 'min_bins_per_pixel') for x in ast.walk(us)):
+            run.fail('C16-R2', K + '_update_spectral_settings|step', ci.mod.relpath, us0.lineno,
+                     'Spectrometer._update_spectral_settings never reads min_bins_per_pixel: the bin width is %s' % norm(step))
+        else:
+            run.undecided('C16-R2', 'Spectrometer step', 'form not recognised: %s' % norm(step))
+        return
+    g = _gen_over(step.left, 'min')
+    if not g or g[2] not in (W, 'self.wavelength_to_pixel'):
+        run.undecided('C16-R2', 'Spectrometer step', 'form not recognised: %s' % norm(step.left))
+        return
+    verdict = _all_widths_min(g[0], g[1])
+    if verdict is True:
+        run.ok('C16-R2', 'Spectrometer step', norm(step))
+    elif verdict is False:
+        run.fail('C16-R2', K + '_update_spectral_settings|step', ci.mod.relpath, us0.lineno,
+                 'Spectrometer._update_spectral_settings: the narrowest pixel is taken as %s, which reads only fixed edges of each array: a '
+                 'narrower pixel elsewhere makes the bins wider than narrowest pixel / min_bins_per_pixel' % norm(g[0]))
+    else:
+        run.undecided('C16-R2', 'Spectrometer step', 'narrowest-pixel form not recognised: %s' % norm(g[0]))
+
+
+def _polychromator_settings(run, prog, pc):
+    from ..inline import prep, class_lookup
+    KP = '%s|Polychromator|_update_spectral_settings|' % pc.mod.name
+    us0 = pc.methods.get('_update_spectral_settings')
+    us = prep(us0, class_lookup(prog, pc))
+    loops = [l for l in us.body if isinstance(l, ast.For) and norm(l.iter) in ('self._filters', 'self.filters') and isinstance(l.target, ast.Name)]
+    run.subject('C16-R2')
+    if len(loops) != 1:
+        run.undecided('C16-R2', 'Polychromator settings', 'expected one loop over the filters')
+        return
+    lp = loops[0]
+    fv = lp.target.id
+    roles = {}        # role -> (accumulator name, function used, stmt)
+    for st in lp.body:
+        if isinstance(st, ast.Assign) and len(st.targets) == 1 and isinstance(st.targets[0], ast.Name) and isinstance(st.value, ast.Call) \
+                and dotted(st.value.func) in ('min', 'max') and len(st.value.args) == 2:
+            acc = st.targets[0].id
+            others = [a for a in st.value.args if norm(a) != acc]
+            if len(others) != 1:
+                continue
+            o = norm(others[0]).replace(' ', '')
+            role = {'%s.min_wavelength' % fv: 'min', '%s.max_wavelength' % fv: 'max',
+                    '%s.window/self._min_bins_per_window' % fv: 'step', '%s.window/self.min_bins_per_window' % fv: 'step'}.get(o)
+            if role:
+                roles[role] = (acc, dotted(st.value.func), st)
+    inits = {}
+    for st in us.body:
+        if st is lp:
+            break
+        if isinstance(st, ast.Assign) and len(st.targets) == 1 and isinstance(st.targets[0], ast.Name):
+            inits[st.targets[0].id] = norm(st.value)
+    want_fn = {'min': 'min', 'max': 'max', 'step': 'min'}
+    want_init = {'min': ('np.inf', "float('inf')", 'math.inf', 'inf'), 'max': ('0', '0.0', '-np.inf'), 'step': ('np.inf', "float('inf')", 'math.inf', 'inf')}
+    for role in ('min', 'max', 'step'):
+        run.subject('C16-R2')
+        if role not in roles:
+            run.undecided('C16-R2', 'Polychromator ' + role, 'accumulation over the filters not recognised')
+            continue
+        acc, fnm, st = roles[role]
+        if fnm != want_fn[role]:
+            run.fail('C16-R2', KP + role, pc.mod.relpath, st.lineno,
+                     'Polychromator._update_spectral_settings accumulates the %s with %s(): %s' % (role, fnm, norm(st)))
+        elif inits.get(acc) not in want_init[role]:
+            if inits.get(acc) is None:
+                run.undecided('C16-R2', 'Polychromator ' + role, 'initial value of %s not found' % acc)
+            else:
+                run.fail('C16-R2', KP + role + '-init', pc.mod.relpath, st.lineno,
+                         'Polychromator._update_spectral_settings starts the %s accumulation from %s' % (role, inits.get(acc)))
+        else:
+            run.ok('C16-R2', 'Polychromator ' + role, norm(st), sample=False)
+    post = {}
+    after = us.body[us.body.index(lp) + 1:]
+    for st in after:
+        if isinstance(st, ast.Assign) and len(st.targets) == 1:
+            post[norm(st.targets[0])] = st.value
+    if all(r in roles for r in ('min', 'max', 'step')):
+        mn, mx, stp = roles['min'][0], roles['max'][0], roles['step'][0]
+        for fld, var in (('self._min_wavelength', mn), ('self._max_wavelength', mx)):
             run.subject('C16-R2')
-            fn = pc.methods.get(bname)
-            if fn is not None and want in norm(fn.body) and 'for poly_filter in self._filters' in norm(fn.body) and ' if ' not in norm(fn.body):
+            e = post.get(fld)
+            if e is not None and norm(e) == var:
+                run.ok('C16-R2', 'Polychromator ' + fld, var, sample=False)
+            elif e is not None and isinstance(e, ast.Name):
+                run.fail('C16-R2', KP + 'store:' + fld, pc.mod.relpath, us0.lineno, 'Polychromator stores %s in %s' % (norm(e), fld))
+            else:
+                run.undecided('C16-R2', 'Polychromator ' + fld, 'form not recognised: %s' % (norm(e) if e is not None else None))
+        run.subject('C16-R2')
+        e = post.get('self._spectral_bins')
+        want = 'int(np.ceil((%s - %s) / %s))' % (mx, mn, stp)
+        if e is not None and norm(e) == want:
+            run.ok('C16-R2', 'Polychromator bins', want, sample=False)
+        elif e is not None and isinstance(e, ast.Call) and dotted(e.func) in ('int', 'round') and not any(
+                isinstance(x, ast.Call) and dotted(x.func) in ('np.ceil', 'ceil', 'math.ceil') for x in ast.walk(e)):
+            run.fail('C16-R2', KP + 'bins', pc.mod.relpath, us0.lineno, 'Polychromator rounds the number of bins down: %s' % norm(e))
+        else:
+            run.undecided('C16-R2', 'Polychromator bins', 'form not recognised: %s' % (norm(e) if e is not None else None))
+    # one pipeline (class and kwargs) per filter, in filter order
+    for bname, elt_has in (('_update_pipeline_classes', None), ('_update_pipeline_kwargs', "'filter'")):
+        run.subject('C16-R2')
+        fn = pc.methods.get(bname)
+        comps = [c for c in ast.walk(fn) if isinstance(c, ast.ListComp)] if fn is not None else []
+        loops2 = [l for l in ast.walk(fn) if isinstance(l, ast.For)] if fn is not None else []
+        if comps and len(comps[0].generators) == 1 and norm(comps[0].generators[0].iter) in ('self._filters', 'self.filters'):
+            g = comps[0].generators[0]
+            okk = not g.ifs
+            if elt_has:
+                okk = okk and isinstance(comps[0].elt, ast.Dict) and any(norm(k) == elt_has and norm(v) == norm(g.target)
+                                                                        for k, v in zip(comps[0].elt.keys, comps[0].elt.values))
+            if okk:
                 run.ok('C16-R2', 'Polychromator ' + bname, 'one entry per filter', sample=False)
             else:
-                run.fail('C16-R2', '%s|Polychromator|%s|per-filter' % (pc.mod.name, bname), pc.mod.relpath, pc.node.lineno,
+                run.fail('C16-R2', '%s|Polychromator|%s|per-filter' % (pc.mod.name, bname), pc.mod.relpath, fn.lineno,
                          'Polychromator.%s does not produce one entry per filter' % bname)
-    run.floor('C16-R2', 12)
+        elif loops2:
+            run.undecided('C16-R2', 'Polychromator ' + bname, 'loop form not analysed')
+        else:
+            run.undecided('C16-R2', 'Polychromator ' + bname, 'form not recognised')
 
 
 def _enclosing_if(fn, node):
